@@ -12,7 +12,7 @@ import z3
 from pyvc import contract as C
 from pyvc import gmodels as G
 from pyvc.contract import Contract, LoopSpec, register, schema
-from pyvc.values import (SV, TBool, TCallable, TDict, TFun, TInt, TList, TNd, TObj, TRec, TStr, TVal, ValS, val_none)
+from pyvc.values import (SV, TBool, TCallable, TDict, TFun, TInt, TList, TNd, TObj, TReal, TRec, TStr, TVal, ValS, val_none)
 
 A = "gemseo.algos."
 HNd = TRec("HashableNdarray", {"wrapped_array": TNd}, cls=A + "hashable_ndarray.HashableNdarray")
@@ -424,3 +424,78 @@ class ComputeJacobianDbNorm(_ComputeDb):
     targets = (A + "problem_function.ProblemFunction._compute_jacobian_db_norm",)
     jacobian = True
     normalized = True
+
+
+# ---------------------------------------------------------------------------- driver side of the budget
+DRV = A + "base_driver_library.BaseDriverLibrary"
+PB = "gemseo.algos._progress_bars.base_progress_bar.BaseProgressBar"
+schema(PB, {})
+schema(A + "evaluation_problem.EvaluationProblem#counter", {"evaluation_counter": TObj(A + "evaluation_counter.EvaluationCounter")})
+schema(DRV, {
+    "_BaseDriverLibrary__progress_bar": TObj(PB),
+    "_problem": TObj(A + "evaluation_problem.EvaluationProblem", schema_key=A + "evaluation_problem.EvaluationProblem#counter"),
+    "_BaseDriverLibrary__max_time": TReal,
+    "_BaseDriverLibrary__start_time": TReal,
+})
+
+
+@register
+class ProgressBarSetObjective(Contract):
+    targets = (PB + ".set_objective_value",)
+    prop = ("C03",)
+    params = {"x_vect": TVal}
+    modifies = ("self",)
+    trusted = True
+    description = "assumed: progress bars only touch their own state (DESIGN §2.2)"
+
+
+@register
+class NewIterationCallback(Contract):
+    """The callback registered as new-iteration listener counts exactly one evaluation per notification
+    (also when it raises MaxTimeReached), and touches nothing else."""
+
+    targets = (DRV + "._new_iteration_callback",)
+    prop = ("C03",)
+    params = {"x_vect": TNd}
+    modifies = ("self._problem.evaluation_counter", "self._BaseDriverLibrary__progress_bar")
+    raises = {"MaxTimeReached": lambda c: c.old.self._BaseDriverLibrary__max_time > 0}
+    raises_exact = False  # whether the time limit is exceeded depends on the wall clock
+
+    def _count(self, c):
+        k0, k1 = c.old.self._problem.evaluation_counter, c.new.self._problem.evaluation_counter
+        return [("counted-once", k1.current == k0.current + 1), ("maximum-kept", k1.maximum == k0.maximum)]
+
+    def ensures(self, c):
+        return self._count(c)
+
+    def raise_ensures(self, c, exc):
+        return self._count(c)
+
+
+@register
+class BudgetLemmas(Contract):
+    """Induction step of the budget invariant over ANY sequence of problem-function calls (= any algorithm).
+
+    State: cur (evaluation counter), created (database entries that went from absent/empty to non-empty since the
+    counter value c0).  One call of a _compute_*_db* function changes the state as allowed by its postconditions:
+      new in {0,1}                                   ('budget:at-most-this-entry')
+      new = 1  =>  maximum = 0 or cur < maximum      ('budget:new-entry-only-below-maximum')
+      the new-iteration listeners are notified iff new = 1 (Database.store 'calls-count'/'calls-records'),
+      the driver callback is one of them exactly once (Database.__add_listener keeps listeners duplicate-free),
+      each notification adds one to the counter       (NewIterationCallback 'counted-once').
+    """
+
+    targets = ()
+    prop = ("C03",)
+    lemma = True
+
+    def lemmas(self):
+        cur, cur1, created, created1, c0, mx, new = z3.Ints("cur cur1 created created1 c0 mx new")
+        inv = lambda cu, cr: z3.And(cr >= 0, cu == c0 + cr, z3.Or(mx == 0, cr == 0, cu <= mx))  # noqa: E731
+        step = z3.And(z3.Or(new == 0, new == 1), z3.Implies(new == 1, z3.Or(mx == 0, cur < mx)), cur1 == cur + new, created1 == created + new)
+        return [
+            ("budget-invariant-initially", inv(c0, z3.IntVal(0))),
+            ("budget-invariant-preserved", z3.Implies(z3.And(inv(cur, created), step), inv(cur1, created1))),
+            ("at-most-N-new-entries", z3.Implies(z3.And(inv(cur, created), mx > 0), created <= z3.If(mx - c0 > 0, mx - c0, 0))),
+            ("with-counter-reset-at-most-N", z3.Implies(z3.And(inv(cur, created), mx > 0, c0 == 0), created <= mx)),
+        ]
